@@ -110,6 +110,8 @@ def check_oracle(line, out):
     if t[0] != "check" or len(t) < 8:
         return None
     o = out.split()
+    if out == "bad-op":
+        return None            # malformed op line (both sides reject it: compared by the differential)
     if len(o) < 4:
         return "malformed-output"
     W, autoreset, sleep, number0, n = t[1], int(t[2]), int(t[3]), int(t[4]), int(t[6])
@@ -332,7 +334,8 @@ def engine_oracle(ctx, exe, nmodels, per_field):
                     # D: bad controls are replaced by zeros
                     if w1[W_CTRL] > w0[W_CTRL] and not caught:
                         stats["caught"]["ctrl"] += 1
-                        if not all(after[g] == ref2[g] for g in STATE_FIELDS + ("time",)):
+                        # (the implicit integrators read d->ctrl again in mjd_actuator_vel: compared for Euler / RK4 only)
+                        if mdl.options["integrator"] in ("Euler", "RK4") and not all(after[g] == ref2[g] for g in STATE_FIELDS + ("time",)):
                             fail("c30:badctrl-not-zeroed", "mjWARN_BADCTRL fired but the step differs from the step with zero controls", rp)
                             continue
                     if f in ("ctrl",) and v == "nan" and variant == "plain" and w1[W_CTRL] <= w0[W_CTRL] and not caught:
@@ -369,15 +372,26 @@ def engine_oracle(ctx, exe, nmodels, per_field):
 
 # ------------------------------------------------------------------------------------------ run
 def run(ctx):
+    import time
     quick = ctx.tier != "thorough"
+    T = {}
+    t0 = time.time()
+
+    def lap(name):
+        nonlocal t0
+        T[name] = round(time.time() - t0, 1)
+        t0 = time.time()
     ctx.rule = ("(a) `isbad` bit patterns: NaN payloads, ±Inf, ±1e10 and neighbours, random magnitudes 1e9..1e11, generic values; "
                 "(b) `check` lines: vectors of length 1..13 with 0..3 special entries (NaN/±Inf/beyond/at the limit), last index "
                 "over-sampled, autoreset and sleep flags, awake lists; (c) engine injections: (model, autoreset, field, index, value); "
                 "a case is distinct by its full tuple / line")
+    manifest = kernelval.regen(ctx)          # first: the theorems are about the regenerated Gen/ files
+    lap("regen")
     ctx.lean_props(THEOREMS)
-    manifest = kernelval.regen(ctx)
+    lap("lean_props")
     kernelval.validate(ctx, manifest, ["mju_isBad"], 400 if quick else 4000, gens={"mju_isBad": isbad_gen},
                        label="c2lean mju_isBad")
+    lap("kernel_validation")
     drv = ctx.driver("drv_c30")
     impl = ctx.harness("harness/c/c30_check.c", "c30_check")
     if drv and impl:
@@ -398,12 +412,15 @@ def run(ctx):
         else:
             ctx.oracle_failure("c30:check:crash", "c30_check harness crashed (rc=%s)" % rc, {"stderr": err[-400:]})
         ctx.extra["check_function_oracle"] = {"lines": len(lines), "failures": nf}
+    lap("check_differential")
     exe = ctx.harness("harness/c/engine_repl.c", "engine_repl", deps=["harness/mjbuild.h"])
     if exe:
-        stats = engine_oracle(ctx, exe, 10 if quick else 120, 4 if quick else 12)
+        stats = engine_oracle(ctx, exe, 24 if quick else 200, 6 if quick else 16)
         ctx.extra["injection_oracle"] = stats
         ctx.oblige("injection oracle ran (%d models, %d injections)" % (stats["models"], stats["injections"]), "oracle-ran",
                    stats["models"] > 0 and stats["injections"] > 0)
+    lap("injection_oracle")
+    ctx.extra["stage_seconds"] = T
     ctx.assumptions.append("IEEE-754 treatment of NaN/Inf by mju_isBad: hand model (BadCheck.FloatClass) compared with the real function on bit patterns, not proved")
 
 
